@@ -33,6 +33,17 @@ def toolCountsForever (n : Int) : Nat × Nat :=
   let r := transcribeWithTools ⟨n, true, true, true⟩ foreverTools ()
   (toolRounds r.evs, completions r.evs)
 
+/-- a provider that asks for one tool on every round; the `n`-th tool execution returns `n` -/
+def countingTools : ToolAdv Nat Unit Unit Nat :=
+  ⟨fun s _ => (s, .ok ((), [()])), fun s _ => (s, .ok ()), fun s _ => (s + 1, .ok s)⟩
+
+/-- what each provider call of the model's tool loop (budget 3) was shown: the tool results its prompt carries -/
+def promptsSeen : List (List Nat) :=
+  (transcribeWithTools ⟨3, true, true, true⟩ countingTools 0).evs.filterMap fun
+    | .tools p _ => some (p.getD [])
+    | .complete p _ => some (p.getD [])
+    | .exec _ _ => none
+
 /-- the entropy test with an exact threshold: `unique / n < 1 - threshold` -/
 def ratCode (thr : Rat) : SwarmCode Nat :=
   ⟨fun _ => false, fun l => l.eraseDups.length, fun u n => decide ((u : Rat) / (n : Rat) < 1 - thr)⟩
